@@ -108,9 +108,8 @@ def run(ctx):
     mon, totals = runner.run_sharded(drive_encoding.work, ctx.tier, extra=int(ctx.seed))
     for name, ok_, text in cr_obls:
         if not ok_:
-            donors = [f for f in mon.failures if belongs(f.obligation)]
-            ctx.violation(core.Violation("C05", name, "the grand-total corner is initialised from the encoding: %s" % text, input=donors[0].input if donors else None,
-                                         cls={"site": name}, solver={"site": text}, no_input=not donors))
+            ctx.violation(core.Violation("C05", name, "the grand-total corner is initialised from the encoding: %s" % text, input=None,
+                                         cls={"site": name}, solver={"site": text}, no_input=True))
     for name, verdict, detail in [r for r in sym if r[1] != "unsat"][:3]:
         ctx.violation(core.Violation("C05", name, "the real _compute_common_cells_from_marginal_diffs, run on symbolic cell contents under this tuple of common values, "
                                      "does not return the per-cell value (which no other tuple of common values changes): %r" % (detail,),
